@@ -72,11 +72,19 @@ def emit_user_op(d, world, acts, side, kinds=OP_KINDS, sizes=False):
         allowed = world.allowed(side, kind)
         if not allowed:
             continue
+        # locality bias: half of the time prefer an object touched recently (repeated work on one object is
+        # where retries, stale temp files and half-synced states live)
+        recent = getattr(world, "recent", [])
+        if recent and d.bool():
+            near = [c for c in allowed if c[1] in recent or (len(c) > 2 and c[2] in recent)]
+            if near:
+                allowed = near
         c = d.choice(allowed)
         if c[0] in ("create", "write"):
             c = (c[0], c[1], content_for(d, world, sizes))
         acts.append(["u", side] + list(c))
         world.apply(side, *c)
+        world.recent = (getattr(world, "recent", []) + [c[-1] if c[0] == "rename" else c[1]])[-3:]
         return c
     return None
 
